@@ -33,6 +33,8 @@ type Case struct {
 	Jobs       []Job             `json:"jobs"`
 	Transforms []string          `json:"transforms"` // flatten | flatten-full | expand | mixin | diff | diff-json | genspec
 	Concurrent bool              `json:"concurrent"`
+	// DiffPair: the first spec with planted definitions and an edited copy of it (for diff / diff-json)
+	DiffPair []json.RawMessage `json:"diff_pair,omitempty"`
 }
 
 func chance(t *rapid.T, label string, pct int) bool {
@@ -118,6 +120,32 @@ func gen(t *rapid.T) Case {
 		}
 	}
 	c.Concurrent = chance(t, "concurrent", 60)
+	// a related pair for the diff commands: definitions that no operation uses and that refer to each other, edited copy
+	a := specgen.CloneJ(docs[0])
+	if defs, ok := a["definitions"].(J); ok {
+		np := rapid.IntRange(1, 3).Draw(t, "nplanted")
+		for i := 0; i < np; i++ {
+			defs[fmt.Sprintf("Unused%dInner", i)] = J{"type": "object", "properties": J{"name": J{"type": "string"}, "n": J{"type": "integer"}}}
+			defs[fmt.Sprintf("Unused%dOuter", i)] = J{"type": "object", "properties": J{"inner": J{"$ref": fmt.Sprintf("#/definitions/Unused%dInner", i)}, "list": J{"type": "array", "items": J{"$ref": fmt.Sprintf("#/definitions/Unused%dInner", i)}}}}
+		}
+	}
+	b := specgen.CloneJ(a)
+	if defs, ok := b["definitions"].(J); ok {
+		for i := 0; ; i++ {
+			in, ok := defs[fmt.Sprintf("Unused%dInner", i)].(J)
+			if !ok {
+				break
+			}
+			if chance(t, fmt.Sprintf("planted%d_edit", i), 70) {
+				in["properties"].(J)["name"] = J{"type": "integer"}
+			}
+		}
+	}
+	ne := rapid.IntRange(0, 5).Draw(t, "nedits")
+	for i := 0; i < ne; i++ {
+		specgen.RandomEdit(t, fmt.Sprintf("edit%d", i), b)
+	}
+	c.DiffPair = []json.RawMessage{specgen.JSONBytes(a), specgen.JSONBytes(b)}
 	return c
 }
 
@@ -468,7 +496,17 @@ func tail(s string, n int) string {
 // transformRuns executes a spec-transforming / reporting command `repeats` times and returns the outputs.
 func transformRuns(base, tr string, specs []string, c Case) []string {
 	var outs []string
-	for r := 0; r < repeats; r++ {
+	reps := repeats
+	if tr == "diff" || tr == "diff-json" {
+		reps = 8 // cheap, and some order dependences show in one run out of eight only
+		if len(c.DiffPair) == 2 {
+			pa, pb := filepath.Join(base, "diff-a.json"), filepath.Join(base, "diff-b.json")
+			_ = os.WriteFile(pa, c.DiffPair[0], 0o644)
+			_ = os.WriteFile(pb, c.DiffPair[1], 0o644)
+			specs = []string{pa, pb}
+		}
+	}
+	for r := 0; r < reps; r++ {
 		d := filepath.Join(base, fmt.Sprintf("t-%s-%d", tr, r))
 		_ = os.MkdirAll(d, 0o755)
 		out := filepath.Join(d, "out.json")
